@@ -20,6 +20,7 @@ func c16(r *core.Run) {
 	r.NotDecided = []string{"the numeric bound 'unexpired for at least Y years'", "exact price tiers (control dependence on name length)"}
 	r.Rule("C16/R1", "registration: account->module debit and module->POL credit carry the same value, which depends on msg.Years and the TLD cost table; recipient is the constant POL account; bank errors propagate")
 	r.Rule("C16/R2", "every reaching definition of the stored Names.Expires is years*const plus a base: Ctx.BlockHeight, or Store(Names).Expires only on paths that passed a live comparison for that record")
+	r.Rule("C16/R4", "success implies the effect: every committing return of a registration has debited the registrant and written the name record")
 	r.Rule("C16/R3", "a found name owned by another account is overwritten only behind an expired comparison (same guard row as C08/R1 for registration)")
 	hs, err := p.Handlers()
 	if err != nil {
@@ -109,6 +110,12 @@ func c16(r *core.Run) {
 				expiredEdge(p),
 			)
 		}, "{Found(Names)=false | Eq(Names.Value,signer)=true | expired}")
+	}
+	for _, key := range []string{"rns.MsgRegister", "rns.MsgRegisterName"} {
+		if h := core.HandlerByKey(hs, key); h != nil {
+			successImplies(r, "C16/R4", h, "write of the name record", storeWrites("rns", "Names/value/"))
+			successImplies(r, "C16/R4", h, "debit of the registrant", core.OpFilter{Bank: func(b *core.BankOp) bool { return b.Method == "SendCoinsFromAccountToModule" }})
+		}
 	}
 	r.Floor("C16/R1", n, 2, "registration handlers")
 }
